@@ -8,6 +8,7 @@
 -/
 import Mfi.Lemmas.AccL
 import Mfi.Model.Auth
+import Mfi.Props.C09
 
 namespace Mfi.Props.C08
 open Mfi.Gen.Acc Mfi.Auth
@@ -139,5 +140,19 @@ theorem vault_authorities_are_pdas :
 /-- the fee state is always the program's singleton PDA -/
 theorem fee_state_is_pda :
     ∀ s ∈ allStructs, ∀ f ∈ fields s, f.ty = .loader .feeState → f.hasSeeds = true := by decide
+
+/-- **oracle substitution**: in every pricing arm of the oracle adapter (regenerated from state/price.rs) the number
+    of accounts is fixed first and EVERY account — price feed, venue reserve / spot market, pool-token mint, stake
+    account — is compared with the key the bank has configured at that index before anything is loaded from it; a Pyth
+    account additionally has its owner compared with the receiver program (C09.every_account_bound / pyth_owner_checked). -/
+theorem oracle_accounts_bound :
+    (∀ a ∈ Mfi.Gen.Ora.arms, Mfi.Props.C09.pricing a.2 = true →
+      a.2.head? = (Mfi.Props.C09.declaredLen a.2).map Mfi.Gen.Ora.OEv.lenCheck ∧
+      (match Mfi.Props.C09.declaredLen a.2 with
+       | some n => (List.range n).all fun i => Mfi.Props.C09.before a.2 (.keyCheck i) (Mfi.Props.C09.firstLoad a.2)
+       | none => false) = true) ∧
+    (∀ a ∈ Mfi.Gen.Ora.arms, ∀ i, a.2.contains (.loadPyth i) = true →
+      i = 0 ∧ Mfi.Props.C09.before a.2 .pythOwnerCheck (Mfi.Props.C09.firstLoad a.2) = true) :=
+  ⟨Mfi.Props.C09.every_account_bound, Mfi.Props.C09.pyth_owner_checked⟩
 
 end Mfi.Props.C08
